@@ -488,3 +488,59 @@ pub mod c12 {
         Ok((s, u, changestate_dump(&cs), attrs))
     }
 }
+
+/// C20: the pre-operation plugin runners (Base first), callable without the access check
+/// that precedes them in `create` / `modify` / `batch_modify`.
+pub mod c20 {
+    use super::*;
+    use crate::plugins::Plugins;
+
+    /// `Plugins::run_pre_create_transform` on the entries of `ce`, prepared as `create` does
+    /// (`assign_cid`). Returns per candidate its `uuid` value set and its classes afterwards.
+    pub fn run_pre_create_transform(
+        qs: &mut QueryServerWriteTransaction,
+        ce: &CreateEvent,
+    ) -> Result<Vec<(Vec<Uuid>, Vec<String>)>, OperationError> {
+        let cid = qs.get_cid().clone();
+        let schema = qs.get_schema();
+        let mut cand: Vec<Entry<EntryInvalid, EntryNew>> = ce
+            .entries
+            .iter()
+            .cloned()
+            .map(|e| e.assign_cid(cid.clone(), schema))
+            .collect();
+        Plugins::run_pre_create_transform(qs, &mut cand, ce)?;
+        Ok(cand
+            .iter()
+            .map(|e| {
+                let uuids = e
+                    .get_ava_set(Attribute::Uuid)
+                    .and_then(|vs| vs.as_uuid_set().map(|s| s.iter().copied().collect()))
+                    .unwrap_or_default();
+                let classes = e
+                    .get_ava_as_iutf8(Attribute::Class)
+                    .map(|s| s.iter().cloned().collect())
+                    .unwrap_or_default();
+                (uuids, classes)
+            })
+            .collect())
+    }
+
+    /// `Plugins::run_pre_modify` with no candidates: only the modlist checks can fire.
+    pub fn run_pre_modify(
+        qs: &mut QueryServerWriteTransaction,
+        me: &ModifyEvent,
+    ) -> Result<(), OperationError> {
+        let mut cand = Vec::new();
+        Plugins::run_pre_modify(qs, &[], &mut cand, me)
+    }
+
+    /// `Plugins::run_pre_batch_modify` with no candidates.
+    pub fn run_pre_batch_modify(
+        qs: &mut QueryServerWriteTransaction,
+        me: &BatchModifyEvent,
+    ) -> Result<(), OperationError> {
+        let mut cand = Vec::new();
+        Plugins::run_pre_batch_modify(qs, &[], &mut cand, me)
+    }
+}
